@@ -1060,3 +1060,90 @@ def fewer_than_two(t, pol, coll=None):
         if small and (coll is None or x == coll):
             return x
     return None
+
+
+TEXT_KW = ("encoding", "errors", "newline")
+
+
+def _open_calls(cx: Cx, fn: FunctionInfo):
+    """(call term, mode 'r'|'w'|'?', {kw: term}, line) for every text-file open / read_text / write_text in ``fn``."""
+    from .terms import is_const
+
+    out = []
+    s = cx.summary(fn)
+    seen = set()
+    for t, ev, ctx in s.all_terms():
+        for c in subterms(t):
+            if op(c) != "call" or c in seen:
+                continue
+            name = callee_name(c)
+            kw = dict(c[3])
+            pos = list(c[2])
+            mode = None
+            order = None
+            if c[1] == ("builtin", "open") or (op(c[1]) == "ext" and c[1][1] in ("gzip.open", "io.open", "codecs.open")):
+                mode = kw.get("mode") or (pos[1] if len(pos) > 1 else ("const", "r"))
+                order = ["file", "mode", "buffering", "encoding", "errors", "newline"] if c[1] != ("ext", "gzip.open") else ["filename", "mode", "compresslevel", "encoding", "errors", "newline"]
+            elif op(c[1]) == "attr" and name == "open" and op(c[1][1]) not in ("ext",):
+                mode = kw.get("mode") or (pos[0] if pos else ("const", "r"))
+                order = ["mode", "buffering", "encoding", "errors", "newline"]
+            elif op(c[1]) == "attr" and name == "write_text":
+                mode = ("const", "w")
+                order = ["data", "encoding", "errors", "newline"]
+            elif op(c[1]) == "attr" and name == "read_text":
+                mode = ("const", "r")
+                order = ["encoding", "errors"]
+            else:
+                continue
+            seen.add(c)
+            args = {}
+            for i, a in enumerate(pos):
+                if i < len(order) and order[i] in TEXT_KW:
+                    args[order[i]] = a
+            for k in TEXT_KW:
+                if k in kw:
+                    args[k] = kw[k]
+            args = {k: v for k, v in args.items() if not is_const(v, None)}
+            modes = []
+            if is_const(mode) and isinstance(mode[1], str):
+                modes = [mode[1]]
+            elif op(mode) == "ifexp" and is_const(mode[2]) and is_const(mode[3]):
+                modes = [mode[2][1], mode[3][1]]
+            for m in modes or ["?"]:
+                if "b" in m:
+                    continue
+                out.append((c, "w" if any(x in m for x in "wax+") else ("r" if m != "?" else "?"), args, ev.line))
+    return out
+
+
+def open_args_agreement(cx: Cx, ob: Ob, writers: list, readers: list, what: str) -> None:
+    """Text files are written and read back with the same encoding / errors / newline arguments."""
+    from .terms import show
+
+    W, R = [], []
+    for q in writers:
+        fn = cx.model.functions.get(q)
+        if fn is not None:
+            W += [(fn, *x) for x in _open_calls(cx, fn) if x[1] in ("w", "?")]
+    for q in readers:
+        fn = cx.model.functions.get(q)
+        if fn is not None:
+            R += [(fn, *x) for x in _open_calls(cx, fn) if x[1] in ("r", "?")]
+    for fn, c, m, args, line in W + R:
+        ob.site(f"{where(fn, line)} {fn.qualname}", f"{'write' if (fn, c, m, args, line) in W else 'read'} {show(c)[:40]} {sorted((k, show(v)) for k, v in args.items())}")
+    if not W or not R:
+        ob.undecide(f"{what}: no text-mode {'writer' if not W else 'reader'} found")
+        return
+    for k in TEXT_KW:
+        if k == "newline":
+            continue  # csv wants newline='' on both sides, judged by the csv rules; harmless for JSON
+        wv = {show(a.get(k)) if k in a else "default" for _, _, _, a, _ in W}
+        rv = {show(a.get(k)) if k in a else "default" for _, _, _, a, _ in R}
+        if wv != rv or len(wv) > 1:
+            fn, c, m, a, line = next((x for x in W + R if (show(x[3].get(k)) if k in x[3] else "default") != "default"), (W + R)[0])
+            ob.violate(
+                fn.qualname,
+                where(fn, line),
+                f"{what}: files are written with {k}={sorted(wv)} but read with {k}={sorted(rv)}: non-ASCII content does not read back as written wherever the locale's default differs",
+                detail=f"open-{k}",
+            )
